@@ -202,13 +202,13 @@ def run(tier: str, seed: int):
     src = fn_src()
     # -- part 1: tree universe x option grid x dict-order mode
     if tier == 'quick':
-        g, ds, txt = U.universe(tier, seed, U.EXT_SUB, quick_nodes=4, quick_limit=20000)
+        g, ds, txt = U.universe(tier, seed, U.EXT_SUB, quick_nodes=4, quick_limit=12000)
     else:
         g, ds, txt = U.universe(tier, seed, U.EXT_SUB, thorough_nodes=4)
         g5, ds5, txt5 = U.universe(tier, seed, U.EXT, thorough_nodes=5, thorough_sample=None, childless=('leaf', 'none'))
         ds = ds + [d for d in ds5 if S.count_nodes(d) == 5]
-        ds += U.random_descrs(seed, U.EXT_SUB, 6, 30000) + U.random_descrs(seed + 1, U.EXT_SUB, 7, 15000)
-        txt += '; all 5-node trees (extended kinds, childless in leaf/None); 30000/15000 seeded random 6/7-node trees'
+        ds += U.random_descrs(seed, U.EXT_SUB, 6, 20000) + U.random_descrs(seed + 1, U.EXT_SUB, 7, 10000)
+        txt += '; all 5-node trees (extended kinds, childless in leaf/None); 20000/10000 seeded random 6/7-node trees'
     for i, d in enumerate(ds):
         tree = g.build(d)
         has_dict = bool(U.kinds_in(d) & U.DICT_KINDS) or 'empty_dict' in U.kinds_in(d) or 'partial_kw' in U.kinds_in(d) \
